@@ -90,3 +90,58 @@ func RawCCFB(media uint32, begin uint16, count int, ts uint32) []byte {
 	}
 	return b
 }
+
+// NamedSSRCs lists the media/source SSRCs an RTCP packet (one packet, wire
+// bytes) reports about, decoded by hand: SR (own SSRC and report blocks), RR
+// (report blocks), generic NACK / transport-cc / PLI / FIR (media SSRC or FCI
+// SSRC), RFC 8888 CCFB (every report block).
+func NamedSSRCs(raw []byte) []uint32 {
+	if len(raw) < 8 {
+		return nil
+	}
+	fmtOrCount := int(raw[0] & 0x1f)
+	pt := raw[1]
+	u32 := func(off int) uint32 {
+		if off+4 > len(raw) {
+			return 0
+		}
+		return binary.BigEndian.Uint32(raw[off:])
+	}
+	var out []uint32
+	switch pt {
+	case 200: // SR
+		out = append(out, u32(4))
+		for i := 0; i < fmtOrCount; i++ {
+			out = append(out, u32(28+24*i))
+		}
+	case 201: // RR
+		for i := 0; i < fmtOrCount; i++ {
+			out = append(out, u32(8+24*i))
+		}
+	case 205: // RTPFB
+		switch fmtOrCount {
+		case 11: // CCFB
+			end := len(raw) - 4
+			off := 8
+			for off+8 <= end {
+				out = append(out, u32(off))
+				n := int(binary.BigEndian.Uint16(raw[off+6:]))
+				off += 8 + 2*n
+				if n%2 == 1 {
+					off += 2
+				}
+			}
+		default:
+			out = append(out, u32(8))
+		}
+	case 206: // PSFB
+		if fmtOrCount == 4 { // FIR: SSRC in the FCI
+			for off := 12; off+8 <= len(raw); off += 8 {
+				out = append(out, u32(off))
+			}
+		} else {
+			out = append(out, u32(8))
+		}
+	}
+	return out
+}
